@@ -170,6 +170,7 @@ class FullSim:
         sim.daemon = self.daemon
         bpmod.run_in_thread = sched.job('bp', splittable=self.split_jobs)
         sim.world.durable.preempt = gates.preempt_point if self.split_jobs else None
+        sim.world.durable.preempt_reads = self.split_jobs == 'reads'
         dbmod.run_in_thread = sched.job('db')
         mpmod.run_in_thread = sched.job('mp')
         bpmod.sleep = sched.sleeper('bp.sleep')
@@ -286,15 +287,21 @@ class FullSim:
     def quiesce(self, rounds=3):
         '''FIFO until everything is parked on timers; then let every timer fire, `rounds` times.'''
         s = self.sched
-        for _ in range(rounds):
+        def drain():
             s.drain_calls()
             self.check_tasks()
+            while s.held:
+                # a briefly postponed gate runs as soon as every other call has drained, before the next timer
+                s.release_held()
+                s.drain_calls()
+                self.check_tasks()
+        for _ in range(rounds):
+            drain()
             timers = [g for g in s.pending if g.kind == 'time']
             for g in timers:
                 if g in s.pending:
                     s.open_timer(g)
-                    s.drain_calls()
-                    self.check_tasks()
+                    drain()
             # a postponed gate is delayed by one full round of timers (poll + mempool refresh)
             if s.frozen:
                 s.thaw()
